@@ -238,7 +238,8 @@ Definition hdr_bpm_pos (h : fhdr) : bool :=
   match f32_of_bits (fh_bpm h) with Some b => Qlt_bool 0 b | None => false end.
 
 Definition wf_file (f : ofile) : bool :=
-  wf_hdr (f_hdr f) && hdr_bpm_pos (f_hdr f) && (length (f_levels f) =? 3)%nat && forallb wf_level (f_levels f).
+  wf_hdr (f_hdr f) && hdr_bpm_pos (f_hdr f) && ilist_ok 3 (package_counts f)   (* 3 difficulties, counts fit int32 *)
+  && forallb wf_level (f_levels f).
 
 (* ------------------------------------------------------------------ comparing outputs *)
 Definition q_close (tol a b : Q) : bool := Qle_bool (Qabs.Qabs (a - b)) tol.
